@@ -5,7 +5,7 @@ import itertools
 
 from ..program import AnalysisError, walk_local, dotted
 from ..analysis import Spec, src, class_const, const_value
-from ..rules import (exists_form, cond_equiv, cond_branches, substitute_locals, canon, GWF, EXC, need_func, stores_to, is_const, eval_atom, eval_cond,
+from ..rules import (strip_wrappers, kw, exists_form, cond_equiv, cond_branches, substitute_locals, canon, GWF, EXC, need_func, stores_to, is_const, eval_atom, eval_cond,
                      UNKNOWN, parent_map, raise_class)
 from . import common
 from .c07 import _explore
@@ -368,7 +368,7 @@ def _returns(an, f, c, env):
                 try:
                     out.add(const_value(v))
                 except AnalysisError:
-                    out.add(src(v))
+                    out.add(canon(f, v))
             continue
         if i == c.exit:
             out.add(None)
@@ -412,16 +412,46 @@ def state_precedence(prog, an, rep):
                'FAILED > NOTSTARTED' % (f.qname, rows), f.where())
     # the per-branch verdicts come from branch_state over groupby(head_branch)
     txt = src(f.node)
-    vs = [v for _, v in stores_to(f, stv) if v is not None]
-    ok = len(vs) == 1 and isinstance(vs[0], ast.ListComp) and \
-        src(vs[0].elt).startswith('self.branch_state(') and \
-        not vs[0].generators[0].ifs
+    vs = [strip_wrappers(v, names=('list', 'set', 'tuple', 'frozenset'))
+          for _, v in stores_to(f, stv) if v is not None]
+    # one verdict per group: a comprehension without filter whose element is
+    # branch_state(<the group>) -- the groups being those of the one groupby
+    # over self._workflow_runs keyed by head_branch (directly, or through a
+    # list of lists)
+    gb = [x for x in prog.calls_in(f) if src(x.func).endswith('groupby')]
+    comp = vs[0] if len(vs) == 1 and isinstance(vs[0], (
+        ast.ListComp, ast.SetComp, ast.GeneratorExp)) else None
+    ok = comp is not None and len(comp.generators) == 1 and \
+        not comp.generators[0].ifs and isinstance(comp.elt, ast.Call) and \
+        src(comp.elt.func) == 'self.branch_state' and \
+        len(comp.elt.args) == 1 and not comp.elt.keywords
+    if ok:
+        g0 = comp.generators[0]
+        grp = strip_wrappers(comp.elt.args[0], names=('list', 'tuple'))
+        it = strip_wrappers(substitute_locals(f, g0.iter),
+                            names=('list', 'tuple'))
+        if isinstance(g0.target, ast.Tuple) and len(g0.target.elts) == 2:
+            # for _, group in groupby(...)
+            ok = src(grp) == src(g0.target.elts[1]) and \
+                len(gb) == 1 and it is not None and src(it) == src(gb[0])
+        else:
+            # for group in [list(v) for _, v in groupby(...)]
+            ok = src(grp) == src(g0.target) and isinstance(it, (
+                ast.ListComp, ast.GeneratorExp)) and \
+                len(it.generators) == 1 and not it.generators[0].ifs and \
+                isinstance(it.generators[0].target, ast.Tuple) and \
+                len(it.generators[0].target.elts) == 2 and \
+                src(strip_wrappers(it.elt, names=('list', 'tuple'))) == \
+                src(it.generators[0].target.elts[1]) and len(gb) == 1 and \
+                src(it.generators[0].iter) == src(gb[0])
     rep.check(ok, R, f.qname + ': one verdict per group, from branch_state',
               f.where(), 'verdict list is %s' % [src(v) for v in vs])
-    gb = [x for x in prog.calls_in(f) if src(x.func).endswith('groupby')]
+    key = None
+    if len(gb) == 1:
+        key = gb[0].args[1] if len(gb[0].args) > 1 else kw(gb[0], 'key')
     ok = len(gb) == 1 and src(gb[0].args[0]) == 'self._workflow_runs' and \
-        "['head_branch']" in src(gb[0].args[1] if len(gb[0].args) > 1
-                                 else gb[0].keywords[0].value)
+        isinstance(key, ast.Lambda) and len(key.args.args) == 1 and \
+        src(key.body) == "%s['head_branch']" % key.args.args[0].arg
     rep.check(ok, R, f.qname + ': runs grouped by head_branch', f.where(),
               'grouping is %s' % [src(x) for x in gb])
     # unwanted runs removed before grouping
@@ -466,17 +496,27 @@ def unwanted_workflows(prog, an, rep):
     rep.evaluated()
     rep.check(ok, R, f.qname + ': workflow_dispatch runs are filtered out',
               f.where(), 'the workflow_dispatch filter is %s' % shown)
-    rank = None
+    # the conclusion ranking: the one dict literal with a 'success' key,
+    # bound to a local or written where it is used
+    rank = rvar = None
+    bound = {id(n.value): n.targets[0].id
+             for n in walk_local(f.node, include_root=False)
+             if isinstance(n, ast.Assign) and len(n.targets) == 1 and
+             isinstance(n.targets[0], ast.Name)}
+    texts = set()
     for n in walk_local(f.node, include_root=False):
-        if isinstance(n, ast.Assign) and isinstance(n.value, ast.Dict) \
-                and n.value.keys:
+        if isinstance(n, ast.Dict) and n.keys:
             try:
-                cand = const_value(n.value)
+                cand = const_value(n)
             except AnalysisError:
                 continue
             if 'success' in cand:
                 rank = cand
-                rvar = n.targets[0].id
+                texts.add(bound.get(id(n)) or ' '.join(src(n).split()))
+    if len(texts) == 1:
+        rvar = texts.pop()
+    else:
+        rank = None if texts else rank
     rep.evaluated()
     ok = rank is not None and 'success' in rank and all(
         rank['success'] > v for k, v in rank.items() if k != 'success') and \
@@ -575,10 +615,13 @@ def lru_rules(prog, an, rep):
     hs = [n for n in c.nodes.values() if n.kind == 'handler']
     popn = [n for n in c.nodes.values() if n.kind == 'stmt' and
             'popitem' in src(n.ast)]
+    # "the key is new": the KeyError of move_to_end, or a membership test
+    absent = [h.id for h in hs] + cond_branches(
+        an, set_, '%s in self._dict' % set_.params[1], False)
     for p_ in popn:
-        ok, path = c.must_pass([h.id for h in hs], p_.id)
+        ok, path = c.must_pass(absent, p_.id)
         rep.evaluated()
-        rep.check(ok and bool(hs), R, set_.qname + ': eviction only when '
+        rep.check(ok and bool(absent), R, set_.qname + ': eviction only when '
                   'the key is new', set_.where(p_), 'LRUCache.set evicts '
                   'even when it overwrites an existing key',
                   path=c.describe_path(path))
